@@ -249,6 +249,15 @@ def run_case(case):
                 tan_e = beta / np.sqrt(max(ne * ne - beta * beta, 1e-300))
                 trap += min(case["dz"] * tan_e, np.sqrt(2 * case["dz"] * ne / abs(dn(ze))))
             tan_max = max(beta / np.sqrt(max(nfun(ze) ** 2 - beta * beta, 1e-300)) for ze in (z0, z1))
+            # mechanism observable of KF-C01-basic-leg-shorter-than-step: depth extents of the legs the z-trapezoid runs over; a leg
+            # shorter than one step gets zero intervals and its length (extent / cos theta) is missing from L, tof and the arrival point
+            try:
+                spans = [abs(float(p.z1) - float(p.z0))] if p.direct else [abs(float(p.z_turn) - float(p.z_turn_proximity) - float(p.z0)), abs(float(p.z_turn) - float(p.z_turn_proximity) - float(p.z1))]
+            except Exception:       # noqa: BLE001
+                spans = []
+            cos_min = min(np.sqrt(max(1 - (beta / nfun(ze)) ** 2, 1e-6)) for ze in (z0, z1, ztop if not p.direct and beta <= nfun(ztop) else z0))
+            det["leg_depth_spans"] = spans
+            det["dropped_leg_length_bound"] = float(sum(sp_ for sp_ in spans if sp_ < case["dz"]) / cos_min)
             tol = 0.8 * case["dz"] + 1e-4 * L + skip + trap + ((btol / nfun(ztop)) * L * 1.2 if nv else 0.0)
             ttol = max(3e-4 * case["dz"], 1e-4) + (5e-3 if nv else 0) + (skip + trap) / L
             dtol = (max(2e-3 * case["dz"], 1e-3) + (skip + trap) / L) * (1 + min(tan_max, 1e3)) + (1e-2 if nv else 0)
@@ -352,8 +361,19 @@ def kf_basic_leg_shorter_than_step(case, viol):
     """Numeric tracer: z_integral uses int(|dz_leg| / dz) trapezoid intervals, which is zero for a leg spanning less than one
     step in depth: path length and time of flight of such a solution are exactly 0."""
     d = viol["detail"]
-    return (d.get("tracer") == "basic" and "from" in d and abs(d["from"][2] - d["to"][2]) < d.get("dz", 0.0) and d.get("L") == 0.0
-            and viol["clause"] == "path length is finite and of the size of the geometry")
+    if d.get("tracer") != "basic":
+        return False
+    spans = d.get("leg_depth_spans") or ([abs(d["from"][2] - d["to"][2])] if "from" in d else [])
+    if viol["clause"] == "path length is finite and of the size of the geometry":
+        return bool(spans) and max(spans) < d.get("dz", 0.0) and d.get("L") == 0.0
+    # one leg dropped: the ray is short by that leg's length (measured bound), and the time of flight by its share
+    drop = d.get("dropped_leg_length_bound", 0.0)
+    if drop > 0 and "deviation" in d:
+        if viol["clause"] == "launched in the emitted direction the ray arrives at the receiver":
+            return d["deviation"] <= d["tolerance"] + 1.05 * drop
+        if viol["clause"] == "time of flight == integral of n ds / c along the ray":
+            return d["deviation"] <= d["tolerance"] + 1.05 * drop / max(d.get("L", 1.0), 1e-9)
+    return False
 
 
 def kf_basic_max_angle_nan(case, viol):
